@@ -114,7 +114,7 @@ def main(argv):
             runner.finish(dict(result, partial=True), outfile)
 
     runner.finish(dict(result, partial=True, fuzz_inputs=0), outfile)  # (stands if libFuzzer ends the process early)
-    atheris.Setup([sys.argv[0], f"-seed={seed % (2 ** 31) or 1}", "-max_len=4096", "-len_control=0", "-timeout=0",
+    atheris.Setup([sys.argv[0], f"-seed={seed % (2 ** 31) or 1}", "-max_len=8192", "-len_control=0", "-timeout=0",
                    f"-runs={runs * 40}", "-rss_limit_mb=4096", corpus], target)
     atheris.Fuzz()
     done()  # (not reached: libFuzzer exits the process; the periodic partial result then stands)
